@@ -5,6 +5,7 @@ Moore/von Neumann x return type x centre inclusion x entry point, compared with 
 position table by Chebyshev / Manhattan distance.
 """
 import itertools
+import math
 
 from mc.engine import hbfs, par
 from mc.engine.report import Violation
@@ -13,12 +14,19 @@ from mc.engine.seams import reset_library
 import ECAgent.Core as Core
 import ECAgent.Environments as Envs
 
+# in-cell offsets of a position component; the last one is the largest double below 1 (ten steps of 0.1 get there)
+OFFSETS = (0, 0.25, 0.75, 0.9999999999999999)
+
 META = {
     'rule': 'full product shape x centre cell x centre form x radius x kind x ret_type x incl_center x entry point; '
             'distinct_nontrivial counts distinct (shape, centre, radius, kind) reference neighbourhoods',
     'alphabet': {'generic shapes': 'extents {0..3}^3 quick, {0..4}^3 thorough', 'line': 'width 1..5',
                  '2-D grid': '(1,1),(3,2),(2,4),(4,4)',
-                 'centre forms': 'cell id, 3-tuple, PositionComponent with in-cell offsets 0, 0.25, 0.75',
+                 'centre forms': 'cell id, 3-tuple, PositionComponent (one object moved from cell to cell) with in-cell offsets '
+                                 '0, 0.25, 0.75 and the largest double below 1',
+                 'large worlds': '7x7x7 and 20x18 (thorough 9x8x7, line 600): 27 / 9 / 3 centres (corners, face centres, '
+                                 'centre, one off-centre) with radii that give clipped blocks of several hundred cells',
+                 'repeat': 'every answer is vandalised by the caller and the same question asked again',
                  'radius': '0 .. max extent + 1', 'kinds': ['moore', 'neumann'], 'ret_type': ['int', 'tuple'],
                  'incl_center': [False, True],
                  'entry points': ['get_moore_neighbours / get_neumann_neighbours', 'get_neighbours(mode=...)']},
@@ -59,18 +67,31 @@ def check_shape(case):
     table = [tuple(p) for p in world.cells['pos']]
     d3 = list(dims) + [0] * (3 - len(dims))
     rmax = max(max(d3), 1) + 1
+    centres = list(enumerate(table))
+    radii = list(range(0, rmax + 1))
+    if case.get('big'):
+        # large worlds: corners, face centres, the centre and one off-centre cell, radii that make big clipped blocks
+        ext = [max(e, 1) for e in d3]
+        picks = set()
+        for cx in (0, ext[0] // 2, ext[0] - 1):
+            for cy in (0, ext[1] // 2, ext[1] - 1):
+                for cz in (0, ext[2] // 2, ext[2] - 1):
+                    picks.add((cx, cy, cz))
+        picks.add((min(1, ext[0] - 1), min(2, ext[1] - 1), min(3, ext[2] - 1)))
+        centres = [(i, p) for i, p in centres if p in picks]
+        radii = case['radii']
     agent = Core.Agent('probe', model)
     # ONE position component object per offset is moved from centre to centre (as an agent's own component would
     # be), so an answer remembered for "this component" instead of "this cell" shows up
-    movers = {off: Envs.PositionComponent(agent, model, 0, 0, 0) for off in (0, 0.25, 0.75)}
+    movers = {off: Envs.PositionComponent(agent, model, 0, 0, 0) for off in OFFSETS}
     only = case.get('only')
     calls = 0
     balls = set()
-    for cid, centre in enumerate(table):
+    for cid, centre in centres:
         for o in others:
             o.get_moore_neighbours(cid % 12, 1)
             o.get_neumann_neighbours((cid % 2, cid % 3, 0), 2, True, tuple)
-        for r in range(0, rmax + 1):
+        for r in radii:
             for metric in ('moore', 'neumann'):
                 if metric == 'moore':
                     ball = [p for p in table if max(abs(p[0] - centre[0]), abs(p[1] - centre[1]),
@@ -83,9 +104,13 @@ def check_shape(case):
                     exp_t = [p for p in ball if incl or p != centre]
                     exp_i = [table.index(p) for p in exp_t]
                     forms = [('id', cid), ('tuple', centre)]
-                    for off in (0, 0.25, 0.75):
+                    for off in OFFSETS:
                         pc = movers[off]
-                        pc.x, pc.y, pc.z = centre[0] + off, centre[1] + off, centre[2] + off
+                        if off > 0.99:      # the largest double still inside the cell (c + 0.999.. would round up)
+                            pc.x, pc.y, pc.z = (math.nextafter(centre[0] + 1, 0), math.nextafter(centre[1] + 1, 0),
+                                                math.nextafter(centre[2] + 1, 0))
+                        else:
+                            pc.x, pc.y, pc.z = centre[0] + off, centre[1] + off, centre[2] + off
                         forms.append(('pc%s' % off, pc))
                     for fname, cpos in forms:
                         for entry in ('specific', 'generic'):
@@ -103,6 +128,11 @@ def check_shape(case):
                                     got = world.get_neighbours(cpos, radius=r, incl_center=incl, ret_type=rt,
                                                                mode=metric)
                                 exp = exp_i if ret == 'int' else exp_t
+                                if entry == 'specific' and fname in ('id', 'pc0') and isinstance(got, list):
+                                    # the caller may do what it likes with the answer: ask again afterwards
+                                    got.reverse()
+                                    got.append('junk')
+                                    got = fn(cpos, r, incl, rt)
                                 if not isinstance(got, list) or [_n(v) for v in got] != exp:
                                     raise Violation(
                                         f'{metric} neighbourhood of cell {centre} (given as {fname}) radius {r} '
@@ -134,6 +164,11 @@ def chunk_fn(ctx, chunk):
 
 def run(ctx):
     cases = [{'leg': 'shape', 'kind': k, 'dims': d} for k, d in shapes(ctx.tier)]
+    cases += [{'leg': 'big', 'kind': 'discrete', 'dims': [7, 7, 7], 'big': True, 'radii': [3, 4, 7]},
+              {'leg': 'big', 'kind': 'grid', 'dims': [20, 18], 'big': True, 'radii': [8, 9, 21]}]
+    if ctx.tier == 'thorough':
+        cases += [{'leg': 'big', 'kind': 'discrete', 'dims': [9, 8, 7], 'big': True, 'radii': [3, 4, 5, 9]},
+                  {'leg': 'big', 'kind': 'line', 'dims': [600], 'big': True, 'radii': [1, 150, 300, 601]}]
     cases.sort(key=lambda c: -(max(c['dims'][0], 1) * max((c['dims'] + [1, 1])[1], 1) * max((c['dims'] + [1, 1])[2], 1)))
     par.pmap(ctx, chunk_fn, [[c] for c in cases], procs=ctx.procs)
     for c in (cases[0], cases[len(cases) // 2], cases[-1]):
